@@ -536,7 +536,7 @@ def validate_device(dev: str | int | torch.device | None = None) -> tuple[str, i
     elif isinstance(dev, str):
         if "cuda" in dev.lower():
             dev = torch.device(dev)
-        elif "gpu" in dev.lower():
+        elif dev.lower() == "gpu":
             if torch.cuda.is_available():
                 dev = torch.device("cuda")
             elif torch.mps.is_available():
